@@ -230,6 +230,53 @@ def fold_usage_mask_type(ctx, st, um):
     ctx.count('usage_mask_conversions_folded', n)
     return okb, okr, why or 'folded over %d lists / integers with the %d real member values' % (n, len(names))
 
+
+def check_wrapping_data_rebuilt_in_full(ctx):
+    """C05.R14: Get rebuilds the key wrapping data of a stored key with every setting it was stored with."""
+    SECF = 'kmip/core/factories/secrets.py'
+    COBJ = 'kmip/core/objects.py'
+    ctx.rule('C05.R14', 'where the secret factory (pie object -> wire structure, run by Get) builds KeyWrappingData from the stored settings it passes every constructor parameter of KeyWrappingData - by splatting the settings dictionary or by naming all of them: a setting that is left out (the Encoding Option, the IV ...) is stored correctly but never comes back')
+    ot = ctx.src.tree(COBJ)
+    kwd = get_class(ot, 'KeyWrappingData')
+    want = set(params(get_method(kwd, '__init__', raw=True)))
+    st = ctx.src.tree(SECF)
+    n = 0
+    from ..astutil import all_functions
+    for q, fn, cls in all_functions(st):
+        for c in walk_local(fn):
+            if not (isinstance(c, ast.Call) and (call_name(c) or '').split('.')[-1] == 'KeyWrappingData'):
+                continue
+            n += 1
+            splat = any(k.arg is None for k in c.keywords)
+            named = {k.arg for k in c.keywords if k.arg}
+            pos = len(c.args)
+            missing = sorted(want - named) if not splat else []
+            if pos:
+                missing = missing[pos:] if False else sorted((want - named) - set(list(params(get_method(kwd, '__init__', raw=True)))[:pos]))
+            ctx.check(splat or not missing, 'C05.R14', '%s|KeyWrappingData(%s)' % (q, 'missing ' + ','.join(missing) if missing else 'complete'), '%s:%s %s' % (SECF, c.lineno, q),
+                      'all %d settings of the key wrapping data are passed on' % len(want), 'KeyWrappingData is rebuilt without %s: what was stored for it is not returned by Get' % missing)
+    ctx.count('wrapping_data_constructions_in_secret_factory', n, 1)
+
+
+def check_attribute_report_has_no_memory(ctx, m):
+    """C05.R15: what GetAttributes / GetAttributeList report is computed from the stored object and the current request only."""
+    from ..engmodel import pure_memo_fields
+    ctx.rule('C05.R15', 'the attribute reporting path (_get_attributes_from_managed_object, _get_attribute_from_managed_object and the helpers expanded into them) reads no engine table that earlier requests filled, unless the table is a pure memo (its key determines its value): a cache keyed by less than what the answer depends on - the protocol version, for instance - makes a later client of another version see the attribute set of an earlier one')
+    good, bad = pure_memo_fields(m)
+    n = 0
+    for meth in ('_get_attributes_from_managed_object', '_get_attribute_from_managed_object', '_process_get_attributes', '_process_get_attribute_list'):
+        fn = m.methods.get(meth)
+        if fn is None:
+            continue
+        for x in walk_local(fn):
+            if is_self_attr(x) and isinstance(x.ctx, ast.Load) and x.attr in bad:
+                n += 1
+                ctx.fail('C05.R15', 'KmipEngine.%s|reads %s' % (meth, x.attr), m.site(x, fn),
+                         '%s consults self.%s, a table filled by earlier requests that is not a pure memo (%s): the attributes reported for an object then depend on the history of requests, not only on the object and the request' % (meth, x.attr, bad[x.attr]))
+    ctx.analysed['impure_tables_read_by_attribute_reporting'] = n
+    if not n:
+        ctx.ok('C05.R15', ENGINE, 'the attribute reporting path reads no history-dependent engine table (%d pure memo tables, %d impure tables in the engine)' % (len(good), len(bad)))
+
 def run(ctx):
     src = ctx.src
     m = EngineModel(src)
@@ -826,6 +873,8 @@ def run(ctx):
         ctx.ok('C05.R7', ENGINE, 'no mutation of a loaded object outside the six modifying handlers (%d mutation events)' % n_mut)
     check_client_arguments_not_dropped(ctx)
     check_big_integer_columns(ctx)
+    check_wrapping_data_rebuilt_in_full(ctx)
+    check_attribute_report_has_no_memory(ctx, m)
     ctx.not_decided += ['byte fidelity of values through SQLite/SQLAlchemy/TTLV for arbitrary values; restarts on the same database file',
                         'GetAttributes reporting exactly the supplied attributes for arbitrary values']
     ctx.assumptions += ['ROLE alias table (key_value/certificate_value/opaque_data_value <-> value, etc.) transcribes the field roles']
